@@ -151,12 +151,100 @@ def _model_predicted(f, case, impl, model):
     return impl == model and op in ops and any(impl.startswith(k) for k in kinds)
 
 
-FINDING_PREDICATES = {"model-predicted": _model_predicted}
+def _case_prefix(f, case, impl, model):
+    """The failing case belongs to the listed class of inputs (class label carried by the case line)."""
+    return any(case.startswith(p) for p in f.get("identify", {}).get("params", {}).get("prefixes", []))
+
+
+def _comment_gap(f, case, impl, model):
+    """C10: every lost comment was written in a gap kind the finding lists; nothing is duplicated."""
+    kinds = set(f.get("identify", {}).get("params", {}).get("gap_kinds", []))
+    if not model.startswith("bad:C10:lost="):
+        return False
+    parts = case.split(" ")
+    gaps = {}
+    for p in parts:
+        if p.startswith("gaps:"):
+            for g in p[5:].split(","):
+                if "=" in g:
+                    k, v = g.split("=", 1)
+                    gaps[k] = v
+    lost = model.split("=", 1)[1].split(",")
+    return bool(lost) and all(gaps.get(h) in kinds for h in lost)
+
+
+FINDING_PREDICATES = {"model-predicted": _model_predicted, "case-prefix": _case_prefix, "comment-in-gap": _comment_gap}
 
 TEXT_RULE = ("cases are generated from one xoshiro256** state seeded by VERIF_SEED; a case is counted "
              "non-trivial when its oracle is applicable (spec not n/a) and distinct by its full case line")
 
+FEAT_RULE = ("G_prog programs (valid well-typed incl. shadowing of procedure names by parameters, a share with one mutated token; "
+             "comments in leading positions; random layouts); cursor positions: every column of identifier occurrences (3/4), other tokens, "
+             "gaps and positions outside the text (1/4). ")
+
 PROPS = {
+    "C09": {
+        "rule": "syntactically valid programs (3/4 well-typed, 1/4 with identifiers replaced by undefined names), random layouts with leading "
+                "comments, options insertSpaces true/false x tabSize 0..8: FMT (implementation edit vs formatter model), JUDGEFMT09 (edit "
+                "range = whole document by LspPos; LexSpec re-lexing of original and result: identical non-comment token kinds and literal "
+                "values; identical diagnostic kinds). " + TEXT_RULE,
+        "unproved_parts": ["format_preserves_tokens (lexNC (format (parse ts)) = NC ts for every valid program) is judged on every run with "
+                           "the independent lexer specification, not yet a theorem"],
+    },
+    "C10": {
+        "rule": "valid programs with comment lines (a) only in leading positions (declaration/statement/variable/parameter starts; 25% of the "
+                "gaps) — every comment must survive; (b) in ANY gap between two tokens (8%), each comment labelled with its gap kind: "
+                "JUDGEFMT10 (LexSpec comment texts of original vs formatted text: multiset and order), FMT (vs model). Losses in the gap kinds "
+                "of known finding KF-C10-gaps are attributed to it, any other loss or any duplication is a violation. " + TEXT_RULE,
+        "unproved_parts": ["comments_preserved for leading positions is judged on every run (and C10.leading_comment_kept is a kernel-evaluated "
+                           "instance), the general theorem is not proved; the property is FALSE for the gap kinds of KF-C10-gaps (Lean witnesses)"],
+    },
+    "C11": {
+        "rule": "as C09 plus: JUDGEFMT11 (every line of the result is indented by a whole number of units; `null` only when nothing changes, an "
+                "edit only when something changes), PROPFMTIDEM (format twice: second answer null; implementation and model), PROPFMTCANON "
+                "(two random layouts of one token sequence format to the same text; implementation and model). " + TEXT_RULE,
+        "unproved_parts": ["format_idempotent and layout_independent are evaluated on implementation and model on every run, not yet theorems"],
+    },
+    "C12": {
+        "rule": FEAT_RULE + "GOTO decl/typedef/impl (implementation vs handler model) and SPECGOTO (implementation vs the independent "
+                "Scope/Grammar/Typing specification: binding of the occurrence, declaring name token, creator of the array type; predefined, "
+                "int, anonymous arrays and non-identifiers -> none). " + TEXT_RULE,
+        "unproved_parts": ["goto_decl_is_binding (handler = Scope specification on every valid program) is compared on every run, not yet a theorem"],
+    },
+    "C13": {
+        "rule": FEAT_RULE + "REFS/REN/PREP (implementation vs model) and SPECREFS/SPECREN/SPECPREP (vs the Scope specification: exactly the "
+                "other occurrences of the binding; one edit per occurrence incl. the declaration; prepare = identifier range unless int). " + TEXT_RULE,
+        "unproved_parts": ["refs_exact / rename_roundtrip are compared with the Scope specification on every run, not yet theorems; "
+                           "re-analysis after applying a rename is not re-run"],
+    },
+    "C14": {
+        "rule": FEAT_RULE + "HOV/SIG (implementation vs model) and SPECHOV/SPECSIG (vs the specification: signature of the bound declaration "
+                "rendered independently — kind, name, ref marker, fully resolved type, doc comments; hover range = identifier; active "
+                "parameter = commas before the cursor). " + TEXT_RULE,
+        "unproved_parts": ["hover_signature / sig_active_param vs the specification are compared on every run, not yet theorems"],
+    },
+    "C15": {
+        "rule": FEAT_RULE.replace("a share", "40%") + "SEM (implementation vs model), JUDGESEM (ANY document: decoded tokens strictly increasing, "
+                "non-overlapping, each equal to one lexical token (UTF-16 length, comment without its line terminator), type/modifier inside "
+                "the legend), SPECSEM (valid programs: the exact expected stream from lexical class and Scope binding kind, declaration "
+                "modifier exactly on declaring occurrences). " + TEXT_RULE,
+        "unproved_parts": ["semtok_wellformed for all documents is judged on every run (JUDGESEM), the classification is compared with the "
+                           "specification (SPECSEM); only the delta arithmetic (C15.createSemTok_delta) is a theorem"],
+    },
+    "C16": {
+        "rule": "valid programs, uncompressed layout; positions classified by construction: statement starts in bodies/blocks and before a "
+                "closing brace (stmt), starts of unbraced branches (stmtbranch), after ':' of parameters/variables (type), before the next "
+                "declaration / after the last one (top), every other token start with 1/12 (scope): JUDGECOMP (variables = exactly the "
+                "locals of the enclosing procedure by the Scope specification, functions = all declared + predefined procedures, types = "
+                "declared types + int, top level = declaration starters only; scope: nothing local to another procedure), COMP (vs model). " + TEXT_RULE,
+        "unproved_parts": ["completion_scope vs the specification is judged on every run; the list-shape lemmas (C16.*) are theorems",
+                           "positions directly after '(' / ':=' are only covered by the scope class"],
+    },
+    "C17": {
+        "rule": FEAT_RULE.replace("a share", "40%") + "FOLD (implementation vs model) and SPECFOLD (valid programs: one range per procedure in source "
+                "order from the line of `proc` after the doc comments to the line of the last token, by Grammar + LspPos). " + TEXT_RULE,
+        "unproved_parts": ["fold_exact (line numbers vs the specification) is compared on every run; one-range-per-procedure is a theorem"],
+    },
     "C03": {
         "rule": "G_prog well-typed programs (any order of declarations, nested array types, reference parameters, nested control flow, "
                 "layouts with comments): SPECDIAG (implementation publishes no diagnostic; the independent Lean static-semantics "
